@@ -3,12 +3,16 @@
 (* goroutines while NotifyMsg delivers user events / queries (serf/serf.go).      *)
 (*                                                                               *)
 (* One action per shared access, as in the code:                                 *)
-(*   UserEvent(x): Begin; Read  lt := eventClock.Time()                          *)
-(*                        Inc   eventClock.Increment()                           *)
+(*   UserEvent(x): Begin; Take  lt := eventClock.Increment() - 1  (one atomic     *)
+(*                              fetch-and-add: time taken and clock advanced)     *)
 (*                        handleUserEvent: Wit; Cur; Del                         *)
-(*   Query:        Begin; Read  lt := queryClock.Time()                          *)
+(*   Query:        Begin; Take  lt := queryClock.Increment() - 1                 *)
 (*                        Reg   registerQueryResponse (under queryLock)          *)
 (*                        handleQuery: Wit; Cur; Del                             *)
+(* (Before commit 82cb47c the time was read with Time() and the clock advanced in  *)
+(* a separate step -- Increment() resp. the witness in handleQuery --, so two      *)
+(* concurrent callers could share a time: finding C06-concurrent-callers-share-    *)
+(* time, fixed.  mutants/m_c06_unfix.diff restores that code; the check catches it.)*)
 (*   NotifyMsg(user event / query at lt): Begin; Wit; Cur; Del                   *)
 (*   Wit  clock.Witness(lt)                  (atomic here; its internals are C19) *)
 (*   Cur  lock taken; min-time test; curTime := clock.Time(); too-old test        *)
@@ -53,11 +57,10 @@ Acts(s0, t) ==
   IF th.pc = "idle" THEN (IF HasOp(s, t) THEN { [s EXCEPT !.th[t].pc = "go"] } ELSE {})
   ELSE LET o == CurOp(s, t) IN
   CASE th.pc = "go" ->
-         IF o.op = "uev" THEN { [s EXCEPT !.th[t].lt = s.ec, !.th[t].pc = "inc"] }
-         ELSE IF o.op = "lq" THEN { [s EXCEPT !.th[t].lt = s.qc, !.th[t].pc = "reg"] }
+         IF o.op = "uev" THEN { [s EXCEPT !.th[t].lt = s.ec, !.ec = Wrap(s.ec + 1), !.th[t].pc = "wit"] }
+         ELSE IF o.op = "lq" THEN { [s EXCEPT !.th[t].lt = s.qc, !.qc = Wrap(s.qc + 1), !.th[t].pc = "reg"] }
          ELSE IF o.op = "ev" THEN { [s EXCEPT !.th[t].lt = o.lt, !.ec = Witness(s.ec, o.lt), !.th[t].pc = "cur"] }
          ELSE { [s EXCEPT !.th[t].lt = o.lt, !.qc = Witness(s.qc, o.lt), !.th[t].pc = "cur"] }
-    [] th.pc = "inc" -> { [s EXCEPT !.ec = Wrap(s.ec + 1), !.th[t].pc = "wit"] }
     [] th.pc = "reg" -> IF s.ql = 0 THEN { [s EXCEPT !.th[t].pc = "wit"] } ELSE {}
     [] th.pc = "wit" -> IF IsE(o) THEN { [s EXCEPT !.ec = Witness(s.ec, th.lt), !.th[t].pc = "cur"] }
                                   ELSE { [s EXCEPT !.qc = Witness(s.qc, th.lt), !.th[t].pc = "cur"] }
@@ -147,11 +150,13 @@ Next == \E t \in Threads : StepAct(t) \/ FinAct(t)
 Spec == Init /\ [][Next]_vars
 
 Shared == {"C06_local_event_time_shared", "C06_local_query_time_shared"}
-\* C06 with the findings carved out by their tags: concurrent callers share a time (genuine defect);
-\* anything once a message with time 2^64-1 was processed (C19-wrap-at-max)
-C06 == \A v \in M.bad : \/ "witnessed_max" \in v[2]
-                        \/ v[1] \in Shared /\ "concurrent_local_calls" \in v[2]
-\* the findings are reachable (configs with these invariants are expected to be violated)
-C06StrictShared == \A v \in M.bad : v[1] \notin Shared
+\* C06 with the remaining finding carved out by its tag: anything once a message with time 2^64-1 was
+\* processed (C19-wrap-at-max).  The tag concurrent_local_calls is still computed (history predicate: the two
+\* calls sharing a time overlapped) but waives nothing any more.
+C06 == \A v \in M.bad : "witnessed_max" \in v[2]
+\* without any message at MAX nothing may be violated at all
+C06Strict == M.bad = {}
+\* the wrap finding is reachable (a config with this invariant is expected to be violated)
 C06StrictLater == \A v \in M.bad : v[1] \in Shared
+C06StrictShared == \A v \in M.bad : v[1] \notin Shared
 =============================================================================
